@@ -439,7 +439,7 @@ Fixpoint tc (t : ty) (v : pyval) {struct t} : outcome pyval :=
             | Ok vals =>
                 match construct h (map fst fs) vals with
                 | Some r => guard S_post_tuple_try r
-                | None => Escape ERuntimeBug   (* "Mismatch between fields and signature" *)
+                | None => guard S_post_tuple_try (RRaise ETypeError)   (* sig.bind: missing argument *)
                 end
             | Reject => Reject
             | Escape x => Escape x
@@ -784,7 +784,7 @@ Fixpoint ce (t : ty) (v : pyval) {struct t} : cres :=
             | ROk (vals, []) =>
                 match construct h (map fst fs) vals with
                 | Some r => guard_c S_post_tuple_collect (raw_unit r) (CTree (EWrongType ("tuple " ++ name) v true None))
-                | None => guard_c S_post_tuple_collect (RRaise ERuntimeBug) (CTree (EWrongType ("tuple " ++ name) v true None))
+                | None => guard_c S_post_tuple_collect (RRaise ETypeError) (CTree (EWrongType ("tuple " ++ name) v true None))
                 end
             | ROk (_, ch) => CTree (EProduct ("tuple " ++ name) ch v [] [])
             end
